@@ -16,6 +16,10 @@ import PyTough.Proofs.ListingFile
 import PyTough.Proofs.ListingWhole
 import PyTough.Proofs.ListingWholeAut
 import PyTough.Proofs.ListingWholeBlock
+import PyTough.Proofs.ListingFileWholeT2
+import PyTough.Proofs.ListingFileWholeAutBlock
+import PyTough.Proofs.ListingFileWholeSetupA
+import PyTough.Proofs.ListingFileWholeSetupT
 import PyTough.Gen.ListingBind
 
 namespace Props.C05
@@ -598,5 +602,348 @@ example : Proofs.Whole.EntryOk exRdB.skipTables exRdB.tables exE1 ∧ Proofs.Who
 example : Proofs.Whole.LinksOk exRdB.fulltimes.size exRdB.fullpos exRdB.index exRdB.pos.no [exE1, exE2] ∧
     Proofs.Whole.EndOk exRdB.fulltimes.size exRdB.fullpos exRdB.index (Proofs.Whole.endNo exRdB.pos.no [exE1, exE2]) ["\n".toList] none := by
   refine ⟨⟨⟨by decide, by decide, by decide, by decide, by decide, by decide, by decide, by decide, by decide⟩, trivial⟩, by decide, trivial⟩
+
+/-! ### all tables of one result block (AUTOUGH2): read_tables_AUTOUGH2, with some tables skipped
+
+  A block is a list of entries (`Proofs.Whole.AEntry`), one per table: the three lines `read_header_AUTOUGH2` reads in
+  front of every table (title line `tl`, the `… AFTER n TIME STEPS … t SECONDS` line `hl`, one more line `l3`), the
+  table's lines — a table that is read (`AKind.read t A b B b2 Bl D term`: the region of `table_read_AUTOUGH2`) or one
+  that is skipped because it is in `skip_tables` (`AKind.skip A b R term`: non-blank lines `A`, a blank line, lines `R`
+  without the keyword in columns 1..5, the terminator line) — and, when another table follows, the line `x1` behind the
+  terminator and the line `kwl` that `next_table_AUTOUGH2` reads (the keyword line of the next table).  `EntryOkA`,
+  `LinksOkA`, `EndOkA` (Proofs/ListingFileWholeAutBlock.lean) are the decidable well-formedness conditions;
+  `RegionAOk` there is `TableRegionA` here.  `read_tables_AUTOUGH2` is this loop with fuel `len(remaining lines) + 2`
+  (`Proofs.Whole.readTables_A`); the theorem holds for any fuel above the number of tables. -/
+
+example (tn : String) (t : Table) (A : List Str) (b : Str) (B : List Str) (b2 : Str) (Bl D : List Str) (term : Str) :
+    Proofs.Whole.RegionAOk tn t A b B b2 Bl D term ↔ TableRegionA tn t A b B b2 Bl D term := Iff.rfl
+
+open Proofs.Whole in
+/-- what a reader state `s'` holds after the tables `L` of an AUTOUGH2 block have been gone through from state `s`:
+    every table the block reads holds in row `j` exactly the values `read_table_line_AUTOUGH2` returns for ITS OWN
+    `j`-th printed data line, one per column (rows beyond the printed lines keep what they held; names, columns and
+    layout unchanged) — whatever tables before it were read or skipped; every table no entry reads keeps its contents -/
+def HoldsBlockA (s s' : Rd) (L : List AEntry) : Prop :=
+  (∀ x ∈ L, ∀ t A b B b2 Bl D term, x.kind = .read t A b B b2 Bl D term →
+    ∃ t', s'.tables.lookup x.tn = some t' ∧ t' = { t with data := t'.data } ∧
+      (∀ (j : Nat) d, D[j]? = some d →
+        ∃ vals, readTableLineAUTOUGH2 d (t.numpos.headD none) = .ok vals ∧ vals.length = t.cols.length ∧
+          t'.data[j]? = some vals.toArray) ∧
+      (∀ i, D.length ≤ i → t'.data[i]? = t.data[i]?)) ∧
+  (∀ m, (∀ x ∈ L, x.tn = m → ∃ A b R term, x.kind = .skip A b R term) → s'.tables.lookup m = s.tables.lookup m)
+
+open Proofs.Whole in
+private theorem holdsBlockA_foldl (s : Rd) (L : List AEntry) (T' : List (String × Table))
+    (hT : T' = L.foldl (fun T x => stepTablesA x T) s.tables)
+    (hnodup : (L.map (·.tn)).Nodup) (hok : ∀ x ∈ L, EntryOkA s.skipTables s.tables x) (s' : Rd) (hs' : s'.tables = T') :
+    HoldsBlockA s s' L := by
+  subst hT
+  refine ⟨?_, ?_⟩
+  · intro x hx t A b B b2 Bl D term hk
+    have hxok := (hok x hx).2
+    rw [hk] at hxok
+    simp only at hxok
+    rw [hs']
+    refine ⟨_, foldlA_lookup_read L s.tables x t A b B b2 Bl D term hx hk hnodup (by rw [hxok.2.1]; rfl), rfl, ?_, ?_⟩
+    · intro j d hj
+      exact upsA_row x.tn t A b B b2 Bl D term hxok.2.2 j d hj
+    · intro i hi
+      exact upsA_row_beyond t D i hi
+  · intro m hm
+    rw [hs']
+    exact foldlA_lookup_not_read L s.tables m hm
+
+open Proofs.Whole in
+/-- **Every table of the block holds the values of its own region; skipping some tables changes nothing else
+    (AUTOUGH2).**  The loop of `read_tables_AUTOUGH2` over a well-formed block returns; the file is left two lines
+    behind the last terminator line (or at the end of the file); `HoldsBlockA`; title, step and time are those of the
+    header lines in front of the last table; nothing else of the reader changes. -/
+theorem tables_read_block_AUTOUGH2 (e : AEntry) (more : List AEntry) (E : List Str) (s : Rd)
+    (hhd : bound s.fam "read_header" = "read_header_AUTOUGH2") (hti : bound s.fam "read_title" = "read_title_AUTOUGH2")
+    (hrd : bound s.fam "read_table" = "read_table_AUTOUGH2") (hsk : bound s.fam "skip_table" = "skip_table_AUTOUGH2")
+    (hnt : bound s.fam "next_table" = "next_table_AUTOUGH2") (htt : bound s.fam "table_type" = "table_type_AUTOUGH2")
+    (hnodup : ((e :: more).map (·.tn)).Nodup)
+    (hok : ∀ x ∈ e :: more, EntryOkA s.skipTables s.tables x)
+    (hlinks : LinksOkA (e :: more)) (hend : EndOkA E)
+    (hrest : s.pos.rest = blockLinesA (e :: more) E)
+    (fuel : Nat) (hfuel : more.length < fuel) :
+    ∃ s', (tablesLoop actA true false fuel e.tn 0).run s = .ok ((), s') ∧
+      s'.pos = ⟨endNoA s.pos.no (e :: more) + min 2 E.length, E.drop 2⟩ ∧
+      HoldsBlockA s s' (e :: more) ∧
+      s'.title = strip (lastE e more).tl ∧ headerAVals (lastE e more).hl = some (s'.step, s'.time) ∧
+      s' = { s with pos := s'.pos, tables := s'.tables, title := s'.title, step := s'.step, time := s'.time } := by
+  have hrun := tablesLoopA_block e more E s fuel 0 hfuel hhd hti hrd hsk hnt htt hnodup hok hlinks hend hrest
+  refine ⟨_, hrun, rfl, holdsBlockA_foldl s (e :: more) _ rfl hnodup hok _ rfl, rfl, ?_, rfl⟩
+  exact headerAVals_hvA _ (hok _ (lastE_mem e more)).1
+
+open Proofs.Whole in
+/-- **Composition over the result blocks of a file (AUTOUGH2): `set_index(i)` shows block `i`'s own numbers.**
+    When the position recorded for result `i` in `fullpos` is the start of a well-formed block (the explicit,
+    decidable hypotheses `hprest`, `hok`, `hlinks`, `hend` — the block is the one printed at that place of the file,
+    its first table is the element table), `set_index(i)` (negative `i` counted from the end, as coded) returns, the
+    index is `i` normalised, and every table holds the numbers of that block's own region (`HoldsBlockA`), whatever
+    the reader held before. -/
+theorem set_index_reads_block_AUTOUGH2 (s : Rd) (i : Int) (jn : Nat) (p : Pos)
+    (e : AEntry) (more : List AEntry) (E : List Str)
+    (hj : (if i < 0 then i + (s.fullpos.size : Int) else i) = (jn : Int)) (hjn : jn < s.fullpos.size)
+    (hp : s.fullpos[jn]! = p)
+    (hel : e.tn = "element")
+    (hrt : bound s.fam "read_tables" = "read_tables_AUTOUGH2")
+    (hhd : bound s.fam "read_header" = "read_header_AUTOUGH2") (hti : bound s.fam "read_title" = "read_title_AUTOUGH2")
+    (hrd : bound s.fam "read_table" = "read_table_AUTOUGH2") (hsk : bound s.fam "skip_table" = "skip_table_AUTOUGH2")
+    (hnt : bound s.fam "next_table" = "next_table_AUTOUGH2") (htt : bound s.fam "table_type" = "table_type_AUTOUGH2")
+    (hprest : p.rest = blockLinesA (e :: more) E)
+    (hnodup : ((e :: more).map (·.tn)).Nodup)
+    (hok : ∀ x ∈ e :: more, EntryOkA s.skipTables s.tables x)
+    (hlinks : LinksOkA (e :: more)) (hend : EndOkA E) :
+    ∃ s', (setIndex i).run s = .ok ((), s') ∧
+      s'.index = (if i < 0 then i + (s.fulltimes.size : Int) else i) ∧
+      s'.pos = ⟨endNoA p.no (e :: more) + min 2 E.length, E.drop 2⟩ ∧
+      HoldsBlockA s s' (e :: more) ∧
+      s'.title = strip (lastE e more).tl ∧ headerAVals (lastE e more).hl = some (s'.step, s'.time) ∧
+      s' = { s with pos := s'.pos, index := s'.index, tables := s'.tables, title := s'.title, step := s'.step, time := s'.time } := by
+  have hrun := setIndex_block_A s i jn p e more E hj hjn hp hel hrt hhd hti hrd hsk hnt htt hprest hnodup hok hlinks hend
+  refine ⟨_, hrun, rfl, rfl, holdsBlockA_foldl s (e :: more) _ rfl hnodup hok _ rfl, rfl, ?_, rfl⟩
+  exact headerAVals_hvA _ (hok _ (lastE_mem e more)).1
+
+-- the hypotheses are satisfiable: an element table (the region of the example above, laid out as AUTOUGH2 prints it) is
+-- read, a connection table in the skip list is skipped; the block is the one recorded in `fullpos`
+private def exA1 : Proofs.Whole.AEntry :=
+  { tn := "element", tl := " AUTOUGH2 case 1\n".toList,
+    hl := " OUTPUT AFTER  27 TIME STEPS    0.1000000000000000E+16 SECONDS\n".toList,
+    l3 := " THE TIME IS 0.3169E+08 YEARS\n".toList,
+    kind := .read exTA [" EEEEEEEEEEEEEEE\n".toList, "        ELEMENT TABLE\n".toList] "\n".toList [" ELEMENT INDEX P T X\n".toList]
+      "\n".toList [] exDA " EEEEEEEEEEEEEEE\n".toList,
+    x1 := "\n".toList, kwl := " CCCCCCCCCCCCCCC\n".toList }
+private def exA2 : Proofs.Whole.AEntry :=
+  { tn := "connection", tl := " AUTOUGH2 case 1\n".toList,
+    hl := " OUTPUT AFTER  27 TIME STEPS    0.1000000000000000E+16 SECONDS\n".toList,
+    l3 := " THE TIME IS 0.3169E+08 YEARS\n".toList,
+    kind := .skip [" CCCCCCCCCCCCCCC\n".toList, "        CONNECTION TABLE\n".toList] "\n".toList
+      [" ELEM1 ELEM2 INDEX FLOH\n".toList, "\n".toList, "    AA  1 AA  2         1      0.10000E+01\n".toList] " CCCCCCCCCCCCCCC\n".toList }
+private def exRdAB : Rd :=
+  let ls := Proofs.Whole.blockLinesA [exA1, exA2] ["\n".toList]
+  { all := " EEEEEEEEEEEEEEE\n".toList :: ls, isOutputData := false, pos := ⟨0, " EEEEEEEEEEEEEEE\n".toList :: ls⟩, fam := .autough2,
+    tables := [("element", exTA)], skipTables := ["connection"], fullpos := #[⟨1, ls⟩], fulltimes := #[zero] }
+example : bound exRdAB.fam "read_tables" = "read_tables_AUTOUGH2" ∧ bound exRdAB.fam "read_header" = "read_header_AUTOUGH2" ∧
+    bound exRdAB.fam "read_title" = "read_title_AUTOUGH2" ∧ bound exRdAB.fam "read_table" = "read_table_AUTOUGH2" ∧
+    bound exRdAB.fam "skip_table" = "skip_table_AUTOUGH2" ∧ bound exRdAB.fam "next_table" = "next_table_AUTOUGH2" ∧
+    bound exRdAB.fam "table_type" = "table_type_AUTOUGH2" ∧ (([exA1, exA2]).map (·.tn)).Nodup ∧ exA1.tn = "element" := by decide
+example : Proofs.Whole.headerAVals exA1.hl = some (some 27, .fin false 1000000000000000 0) := by decide
+example : Proofs.Whole.EntryOkA exRdAB.skipTables exRdAB.tables exA1 ∧ Proofs.Whole.EntryOkA exRdAB.skipTables exRdAB.tables exA2 :=
+  ⟨⟨by decide, by decide, rfl, by decide⟩, ⟨by decide, by decide, by decide, by decide, by decide, by decide⟩⟩
+example : Proofs.Whole.LinksOkA [exA1, exA2] ∧ Proofs.Whole.EndOkA ["\n".toList] ∧
+    (if (0 : Int) < 0 then (0 : Int) + (exRdAB.fullpos.size : Int) else 0) = ((0 : Nat) : Int) ∧ 0 < exRdAB.fullpos.size ∧
+    (exRdAB.fullpos[0]!).rest = Proofs.Whole.blockLinesA [exA1, exA2] ["\n".toList] ∧
+    exRdAB.pos.rest.drop 1 = Proofs.Whole.blockLinesA [exA1, exA2] ["\n".toList] :=
+  ⟨⟨by decide, trivial⟩, by decide, by decide, by decide, rfl, rfl⟩
+
+
+/-! ### composition over the result blocks of a file (TOUGH2 family): set_index = seek + read_header + the block loop -/
+
+open Proofs.Whole in
+/-- what a reader state `s'` holds after the tables `L` of a TOUGH2-family block have been gone through from state `s`
+    (the table part of the conclusion of `tables_read_block_TOUGH2`) -/
+def HoldsBlockT (s s' : Rd) (L : List TEntry) : Prop :=
+  (∀ x ∈ L, ∀ t header segs, x.kind = .read t header segs → t.data.size = t.rows.size →
+    ∃ t', s'.tables.lookup x.tn = some t' ∧ t' = { t with data := t'.data } ∧
+      ∀ (j : Nat) d i vals, (segs.map (·.1))[j]? = some d →
+        rowOfLineT t.rows t.keyPos t.cols.length t.numpos d = some (i, vals) →
+        (∀ (j' : Nat) d', j < j' → (segs.map (·.1))[j']? = some d' →
+          ∀ v', rowOfLineT t.rows t.keyPos t.cols.length t.numpos d' ≠ some (i, v')) →
+        t'.data[i]? = some vals.toArray) ∧
+  (∀ m, (∀ x ∈ L, x.tn = m → ∃ R atl, x.kind = .skip R atl) → s'.tables.lookup m = s.tables.lookup m)
+
+open Proofs.Whole in
+/-- **Composition over the result blocks of a file (TOUGH2, TOUGH2_MP, TOUGH3, TOUGHREACT): `set_index(i)` shows block
+    `i`'s own numbers.**  `read_header_TOUGH2` is characterised on lines: the line at the recorded position gives time
+    and step (its first two words), then lines `X` up to the `@@@@@` line `atl`, blank lines `Bl`, and the first
+    non-blank line is the header of the first table (at least four words, so the reader seeks back to it;
+    `HeaderT2Ok`, decidable).  When the position recorded for result `i` in `fullpos` is the start of such a header
+    followed by a well-formed block whose first table is the element table (explicit decidable hypotheses `hprest`,
+    `hhead`, `hok`, `hlinks`, `hend`, evaluated with the index `set_index` sets), `set_index(i)` returns, the index is
+    `i` normalised, time and step are those printed, and every table holds the numbers of that block's own region
+    (`HoldsBlockT`), whatever the reader held before and whatever tables are skipped. -/
+theorem set_index_reads_block_TOUGH2 (s : Rd) (i : Int) (jn : Nat) (p : Pos)
+    (l0 : Str) (X : List Str) (atl : Str) (Bl : List Str) (tm : FVal) (st : Step)
+    (e : TEntry) (more : List TEntry) (Xe : List Str) (tailE : Option (Str × List Str))
+    (hj : (if i < 0 then i + (s.fullpos.size : Int) else i) = (jn : Int)) (hjn : jn < s.fullpos.size)
+    (hp : s.fullpos[jn]! = p)
+    (hel : e.tn = "element")
+    (hrt : bound s.fam "read_tables" = "read_tables_TOUGH2") (hrh : bound s.fam "read_header" = "read_header_TOUGH2")
+    (hrd : bound s.fam "read_table" = "read_table_TOUGH2") (hsk : bound s.fam "skip_table" = "skip_table_TOUGH2")
+    (hnt : bound s.fam "next_table" = "next_table_TOUGH2") (htt : bound s.fam "table_type" = "table_type_TOUGH2")
+    (hplus : (s.fam == .toughplus) = false)
+    (hv : headerT2Vals l0 = some (tm, st))
+    (hne : e.kind.lines ≠ [])
+    (hhead : HeaderT2Ok l0 X atl Bl (e.kind.lines.headD [])) (h4 : 4 ≤ (splitWs (e.kind.lines.headD [])).length)
+    (hprest : p.rest = l0 :: (X ++ atl :: (Bl ++ blockLines (e :: more) (endLines Xe tailE))))
+    (hnodup : ((e :: more).map (·.tn)).Nodup)
+    (hok : ∀ x ∈ e :: more, EntryOk s.skipTables s.tables x)
+    (hlinks : LinksOk s.fulltimes.size s.fullpos (if i < 0 then i + (s.fulltimes.size : Int) else i)
+      (p.no + 1 + X.length + 1 + Bl.length) (e :: more))
+    (hend : EndOk s.fulltimes.size s.fullpos (if i < 0 then i + (s.fulltimes.size : Int) else i)
+      (endNo (p.no + 1 + X.length + 1 + Bl.length) (e :: more)) Xe tailE) :
+    ∃ s', (setIndex i).run s = .ok ((), s') ∧
+      s'.index = (if i < 0 then i + (s.fulltimes.size : Int) else i) ∧ s'.time = tm ∧ s'.step = st ∧
+      s'.pos = endPos (endNo (p.no + 1 + X.length + 1 + Bl.length) (e :: more)) Xe tailE ∧
+      HoldsBlockT s s' (e :: more) ∧
+      s' = { s with pos := s'.pos, index := s'.index, tables := s'.tables, step := s'.step, time := s'.time } := by
+  have hrun := setIndex_block_T2 s i jn p l0 X atl Bl tm st e more Xe tailE hj hjn hp hel hrt hrh hrd hsk hnt htt hplus hv hne
+    hhead h4 hprest hnodup hok hlinks hend
+  refine ⟨_, hrun, rfl, rfl, rfl, rfl, ⟨?_, ?_⟩, rfl⟩
+  · intro x hx t header segs hk hdata
+    have hxok := hok x hx
+    unfold EntryOk at hxok
+    rw [hk] at hxok
+    refine ⟨_, foldl_lookup_read (e :: more) s.tables x t header segs hx hk hnodup (by rw [hxok.2.1]; rfl), rfl, ?_⟩
+    intro j d i' vals hj' hf hlater
+    have hi : i' < t.data.size := by
+      obtain ⟨key, _, hli, _, _⟩ := (rowOfLineT_spec _ _ _ _ _ _ _).mp hf
+      rw [hdata]; exact (Proofs.Listing.lastIdx_spec hli).1
+    exact applyRows_line _ _ t.data j d i' vals hj' hf hi hlater
+  · intro m hm
+    exact foldl_lookup_not_read (e :: more) s.tables m hm
+
+-- the hypotheses are satisfiable: the block of the example above behind a result header, recorded in `fullpos`
+private def exHdrT : List Str := [" 0.10000E+01      1      2\n".toList, " @@@@@@@@@@\n".toList, "\n".toList]
+private def exRdS : Rd :=
+  let ls := exHdrT ++ Proofs.Whole.blockLines [exE1, exE2] (Proofs.Whole.endLines ["\n".toList] none)
+  { all := ls, isOutputData := false, pos := ⟨0, ls⟩, fam := .tough2, tables := [("element", exT2)], skipTables := ["connection"],
+    fullpos := #[⟨17, ls⟩], fulltimes := #[zero] }
+example : (if (0 : Int) < 0 then (0 : Int) + (exRdS.fullpos.size : Int) else 0) = ((0 : Nat) : Int) ∧ 0 < exRdS.fullpos.size ∧
+    exE1.tn = "element" ∧ bound exRdS.fam "read_tables" = "read_tables_TOUGH2" ∧ bound exRdS.fam "read_header" = "read_header_TOUGH2" ∧
+    (exRdS.fam == .toughplus) = false ∧
+    Proofs.Whole.headerT2Vals " 0.10000E+01      1      2\n".toList = some (.fin false 10000 (-4), some 1) ∧
+    exE1.kind.lines ≠ [] ∧
+    Proofs.Whole.HeaderT2Ok " 0.10000E+01      1      2\n".toList [] " @@@@@@@@@@\n".toList ["\n".toList] (exE1.kind.lines.headD []) ∧
+    4 ≤ (splitWs (exE1.kind.lines.headD [])).length := by decide
+example : (exRdS.fullpos[0]!).rest = " 0.10000E+01      1      2\n".toList :: ([] ++ " @@@@@@@@@@\n".toList :: (["\n".toList] ++
+    Proofs.Whole.blockLines [exE1, exE2] (Proofs.Whole.endLines ["\n".toList] none))) := rfl
+example : Proofs.Whole.LinksOk exRdS.fulltimes.size exRdS.fullpos 0 (17 + 1 + 0 + 1 + 1) [exE1, exE2] ∧
+    Proofs.Whole.EndOk exRdS.fulltimes.size exRdS.fullpos 0 (Proofs.Whole.endNo (17 + 1 + 0 + 1 + 1) [exE1, exE2]) ["\n".toList] none := by
+  refine ⟨⟨⟨by decide, by decide, by decide, by decide, by decide, by decide, by decide, by decide, by decide⟩, trivial⟩, by decide, trivial⟩
+
+/-! ### from set-up to reading (AUTOUGH2): the layout `setup_table_AUTOUGH2` records makes the same region readable -/
+
+open Proofs.Whole in
+/-- **The set-up of an AUTOUGH2 table records a layout for which the SAME printed region is a well-formed region of
+    `read_table_AUTOUGH2`; one row per printed data line, keyed by the printed names.**  `setup_table_AUTOUGH2` is run
+    with the file behind the three result-header lines, on: three lines `a1 a2 a3`, the column header line `hdr`, one
+    line `u`, the data lines `d0 :: D'`, the terminator `term` (`SetupRegionA`, decidable: the header line gives
+    `nkeys` key columns and the column names `cols`; the first data line gives the start of the values, one value per
+    column and the key positions; no data line carries the keyword in columns 1..5, the terminator does; `ks` are the
+    keys `key_from_line` cuts out of the data lines).  Print-level conditions that do not mention the table: the five
+    lines in front of the data are a non-blank block `A`, a blank line, a non-blank block `B`, blank lines (`hlay`, as
+    AUTOUGH2 prints them: keyword line, table title, blank, column header, blank), and every data line splits into one
+    value per column (`hvals`).  Then the set-up returns, the table it stores has exactly the keys `ks` as rows (one
+    per printed data line, in order) and the columns `cols`, the file is left where reading the table will leave it
+    (`tail.drop 1`), and the region is `TableRegionA` for the stored table — so `table_read_AUTOUGH2` applies to it
+    without assuming anything about the layout record. -/
+theorem setup_table_records_region_AUTOUGH2 (tn : String) (s : Rd) (a1 a2 a3 hdr u d0 : Str) (D' : List Str) (term : Str)
+    (tail : List Str) (nkeys : Nat) (cols : List Str) (start : Option Int) (keypos : List Int) (ks : List Key)
+    (A : List Str) (b : Str) (B : List Str) (b2 : Str) (Bl : List Str)
+    (hrest : s.pos.rest = a1 :: a2 :: a3 :: hdr :: u :: (((d0 :: D') ++ [term]) ++ tail))
+    (hreg : SetupRegionA tn hdr d0 D' term nkeys cols start keypos ks)
+    (hlay : a1 :: a2 :: a3 :: hdr :: [u] = A ++ b :: (B ++ b2 :: Bl))
+    (hA : ∀ l ∈ A, isBlank l = false) (hb : isBlank b = true) (hB : ∀ l ∈ B, isBlank l = false) (hb2 : isBlank b2 = true)
+    (hBl : ∀ l ∈ Bl, isBlank l = true) (hfirst : isBlank d0 = false)
+    (hvals : ∀ d ∈ d0 :: D', (rowOfLineA cols.length start d).isSome = true) :
+    ∃ s' t, (setupTableAUTOUGH2 tn).run s = .ok ((), s') ∧ s'.tables.lookup tn = some t ∧
+      t.rows = ks.toArray ∧ t.rows.size = (d0 :: D').length ∧ t.cols = cols ∧
+      (d0 :: D').map (fun d => keyFromLine d t.keyPos) = ks.map .ok ∧
+      s.pos.rest = autRegion A b B b2 Bl (d0 :: D') term tail ∧
+      TableRegionA tn t A b B b2 Bl (d0 :: D') term ∧
+      s'.pos.rest = tail.drop 1 ∧
+      (∀ m, m ≠ tn → s'.tables.lookup m = s.tables.lookup m) ∧
+      s' = { s with pos := s'.pos, tables := s'.tables, tablenames := s.tablenames ++ [tn] } := by
+  obtain ⟨s', t, hrun, _, hrest', hlook, ht, hcols, hrows, hsize, _, hkp, _, _, hother, hnames, hs'⟩ :=
+    setup_table_AUTOUGH2_whole tn s a1 a2 a3 hdr u d0 D' term tail nkeys cols start keypos ks hrest hreg
+  have hreads := setupTableA_reads tn hdr d0 D' term nkeys cols start keypos ks hreg hvals
+  rw [← ht] at hreads
+  refine ⟨s', t, hrun, hlook, hrows, hsize, hcols, ?_, ?_, ?_, hrest', hother, ?_⟩
+  · rw [hkp]; exact hreg.2.2.2.2.2.2.2
+  · rw [hrest]
+    have : a1 :: a2 :: a3 :: hdr :: u :: (((d0 :: D') ++ [term]) ++ tail)
+        = (a1 :: a2 :: a3 :: hdr :: [u]) ++ (((d0 :: D') ++ [term]) ++ tail) := rfl
+    rw [this, hlay]
+    simp [autRegion]
+  · exact ⟨hA, hb, hB, hb2, hBl, hfirst, hreg.2.2.2.2.2.1, hreg.2.2.2.2.2.2.1, hreads.1, hreads.2.1, hreads.2.2⟩
+  · rw [hnames] at hs'; exact hs'
+
+-- the hypotheses are satisfiable: the element table of the examples above, laid out as AUTOUGH2 prints it
+example : Proofs.Whole.SetupRegionA "element" " ELEMENT INDEX P T X\n".toList exDA[0] [exDA[1]] " EEEEEEEEEEEEEEE\n".toList
+    1 [['P'], ['T'], ['X']] (some 24) [4] [["AA  1".toList], ["AA  2".toList]] := by decide
+example : (" EEEEEEEEEEEEEEE\n".toList :: "        ELEMENT TABLE\n".toList :: "\n".toList :: " ELEMENT INDEX P T X\n".toList :: ["\n".toList]
+      = [" EEEEEEEEEEEEEEE\n".toList, "        ELEMENT TABLE\n".toList] ++ "\n".toList :: ([" ELEMENT INDEX P T X\n".toList] ++ "\n".toList :: [])) ∧
+    (∀ l ∈ [" EEEEEEEEEEEEEEE\n".toList, "        ELEMENT TABLE\n".toList], isBlank l = false) ∧ isBlank "\n".toList = true ∧
+    (∀ l ∈ [" ELEMENT INDEX P T X\n".toList], isBlank l = false) ∧ isBlank exDA[0] = false ∧
+    (∀ d ∈ exDA[0] :: [exDA[1]], (Proofs.Whole.rowOfLineA [['P'], ['T'], ['X']].length (some 24) d).isSome = true) := by decide
+
+
+/-! ### from set-up to reading (TOUGH2 family): the layout `setup_table_TOUGH2` records describes the same region -/
+
+open Proofs.Whole in
+/-- **The set-up of a TOUGH2-family table records `header_skiplines` and `skiplines` that describe the SAME printed
+    region (regions without repeated headers).**  `setup_table_TOUGH2` is run with the file at the column-header line
+    `hdr` of a region `(hdr :: H) ++ flat segs ++ after`: `hdr` parses into `nkeys` key columns and the column names
+    (`headerColsT`); no line of `H` is a results line and the first data line `d0` is one (enough `.digit` groups:
+    `isResultsLine`); `d0` gives the start of the values and the key positions; every data line has a key; the
+    segments are as the set-up loop walks them (`SegsOkT`, decidable): behind a data line either the next data line or
+    one blank line and then the next data line, none of them a header line, a separator, the title or empty; behind
+    the last data line a separator line, or a blank line followed by a separator / the title / an empty line / the
+    end of the file; `parse_table_line` on the longest line succeeds.  Then the set-up returns, the file is left
+    exactly behind the region (where `read_table_TOUGH2` will leave it), and the stored table has
+    `header_skiplines = len(header)`, `skiplines` = the numbers of lines behind each data line, one zero row per
+    stored name, the columns, key positions and column boundaries inferred — so the region is `TableRegionT` for the
+    stored table as soon as every data line's key names a stored row and reads one value per column.
+    PARTIAL (`hrows`, explicit and decidable): that last condition is assumed, not derived — missing is the proof
+    that with pairwise distinct printed indices `rowdict` keeps every data line's key, and that the inferred
+    boundaries give `ncols` values; regions with repeated (internal) headers are not covered. -/
+theorem setup_table_records_region_TOUGH2_partial (tn : String) (s : Rd) (hdr : Str) (H : List Str) (d0 : Str) (sk0 : List Str)
+    (r : List (Str × List Str)) (after : List Str)
+    (nkeys : Nat) (c : Str) (cs : List Str) (start : Option Int) (keypos : List Int) (numpos : List (Option Int))
+    (hrest : s.pos.rest = (hdr :: H) ++ (flat ((d0, sk0) :: r) ++ after))
+    (hhdr : headerColsT (s.fam == Fam.toughplus) hdr = some (nkeys, c :: cs))
+    (hH : ∀ l ∈ H, isResultsLine (strip l) (expectedT tn (c :: cs)) = false)
+    (hd0 : isResultsLine (strip d0) (expectedT tn (c :: cs)) = true)
+    (hstart : startOfValues d0 (c :: cs) = .ok start)
+    (hkp : keyPositions (sliceO d0 none start) nkeys = .ok (some keypos)) (hne : keypos ≠ [])
+    (hkeys : ∀ sg ∈ (d0, sk0) :: r, (keyFromLine sg.1 keypos).isOk = true)
+    (hok : SegsOkT (c :: cs) s.title ((d0, sk0) :: r) after)
+    (hnp : parseTableLine (runSt start keypos.getLast! keypos { line := d0, longest := d0 } ((d0, sk0) :: r) after).longest
+              start (c :: cs) = .ok numpos)
+    (hrows : ∀ sg ∈ (d0, sk0) :: r, (rowOfLineT
+        ((sortByIndex (runSt start keypos.getLast! keypos { line := d0, longest := d0 } ((d0, sk0) :: r) after).rowdict).map (·.2.2)).toArray
+        keypos (c :: cs).length numpos sg.1).isSome = true) :
+    ∃ t s', (setupTableTOUGH2 tn).run s = .ok ((), s') ∧ s'.tables.lookup tn = some t ∧
+      (hdr :: H).length = t.headerSkip ∧ ((d0, sk0) :: r).map (·.2.length) = t.skips ∧ t.data.size = t.rows.size ∧
+      t.cols = c :: cs ∧ t.keyPos = keypos ∧ t.numpos = numpos ∧
+      TableRegionT t (hdr :: H) ((d0, sk0) :: r) ∧
+      s'.pos = ⟨s.pos.no + (hdr :: H).length + (flat ((d0, sk0) :: r)).length, after⟩ ∧
+      (∀ m, m ≠ tn → s'.tables.lookup m = s.tables.lookup m) ∧
+      s' = { s with pos := s'.pos, tables := s'.tables, tablenames := s.tablenames ++ [tn] } := by
+  obtain ⟨t, s', hrun, hlook, hh, hsk, hdata, hcols, _, hkpos, hnumpos, hrws, hpos, hother, hnames, hs'⟩ :=
+    setupTableTOUGH2_region tn s hdr H d0 sk0 r after nkeys c cs start keypos numpos hrest hhdr hH hd0 hstart hkp hne hkeys hok hnp
+  refine ⟨t, s', hrun, hlook, hh, hsk, hdata, hcols, hkpos, hnumpos, ⟨hh, hsk, hdata, ?_⟩, hpos, hother, ?_⟩
+  · rw [hrws, hkpos, hcols, hnumpos]; exact hrows
+  · rw [hnames] at hs'; exact hs'
+
+-- the hypotheses are satisfiable: the element table of the examples above (header line, blank line, a data line followed
+-- by a blank line, a data line) followed by a separator line of 70 `@`
+private def exSep : Str := ' ' :: (List.replicate 70 '@' ++ ['\n'])
+example : Proofs.Whole.headerColsT false exHdr[0] = some (1, [['P'], ['T'], ['X']]) ∧
+    (∀ l ∈ ["\n".toList], isResultsLine (strip l) (Proofs.Whole.expectedT "element" [['P'], ['T'], ['X']]) = false) ∧
+    isResultsLine (strip exSegs[0].1) (Proofs.Whole.expectedT "element" [['P'], ['T'], ['X']]) = true ∧
+    startOfValues exSegs[0].1 [['P'], ['T'], ['X']] = .ok (some 12) ∧
+    keyPositions (sliceO exSegs[0].1 none (some 12)) 1 = .ok (some [1]) ∧
+    (∀ sg ∈ exSegs, (keyFromLine sg.1 [1]).isOk = true) ∧
+    Proofs.Whole.SegsOkT [['P'], ['T'], ['X']] [] exSegs [exSep] := by decide
+example : parseTableLine (Proofs.Whole.runSt (some 12) ([1] : List Int).getLast! [1] { line := exSegs[0].1, longest := exSegs[0].1 } exSegs [exSep]).longest
+      (some 12) [['P'], ['T'], ['X']] = .ok ([12, 24, 36, 49].map natPos) ∧
+    (∀ sg ∈ exSegs, (Proofs.Whole.rowOfLineT
+      ((sortByIndex (Proofs.Whole.runSt (some 12) ([1] : List Int).getLast! [1] { line := exSegs[0].1, longest := exSegs[0].1 } exSegs [exSep]).rowdict).map (·.2.2)).toArray
+      [1] [['P'], ['T'], ['X']].length ([12, 24, 36, 49].map natPos) sg.1).isSome = true) := by decide
+
 
 end Props.C05
